@@ -209,6 +209,45 @@ class OptimizedChoiceRepeat(OptimizedChoice):
         return build_optimized_pattern(self.choices, "*")
 
 
+def is_order_independent(choices: list[ChoiceChoice]) -> bool:
+    """Return `True` if regrouping `choices` cannot influence a match.
+
+    pest's choice is ordered, and `build_optimized_pattern` emits multi-character
+    sensitive literals first, then insensitive ones, then Unicode classes, then
+    one character class for everything else. Two alternatives whose relative
+    order changes matter only if one of them can match a prefix of what the
+    other matches and they do not both consume exactly one character.
+    """
+
+    def rank(c: ChoiceChoice) -> int:
+        if isinstance(c, ChoiceLiteral) and len(c.value) != 1:
+            return 0 if c.case == ChoiceCase.SENSITIVE else 1
+        return 2 if isinstance(c, UnicodePropertyRule) else 3
+
+    def overlaps(a: ChoiceChoice, b: ChoiceLiteral) -> bool:
+        # `b` is a multi-character literal that is moved in front of `a`.
+        if isinstance(a, UnicodePropertyRule):
+            return True  # unknown: be conservative
+        insensitive = b.case == ChoiceCase.INSENSITIVE or (
+            isinstance(a, ChoiceLiteral) and a.case == ChoiceCase.INSENSITIVE
+        )
+        if isinstance(a, ChoiceLiteral):
+            x, y = (a.value, b.value)
+            if insensitive:
+                x, y = x.lower(), y.lower()
+            return x.startswith(y) or y.startswith(x)
+        first = b.value[:1]
+        variants = {first, first.lower(), first.upper()} if insensitive else {first}
+        return any(a.start <= v <= a.end for v in variants if len(v) == 1)
+
+    for i, a in enumerate(choices):
+        for b in choices[i + 1 :]:
+            if rank(a) > rank(b) and isinstance(b, ChoiceLiteral) and overlaps(a, b):
+                return False
+
+    return True
+
+
 def build_optimized_pattern(choices: list[ChoiceChoice], repeat: str = "") -> str:  # noqa: PLR0912
     """Build a regex pattern that matches any of the given choices."""
     if not choices:
